@@ -36,7 +36,32 @@ class Impl:
         self.stlf, self.pidx = dgenc.model_params(self.mm)
 
     def info(self):
-        return {"isa": self.isa, "arch": self.arch, "kernel": self.lines, "flag_deps": self.fd}
+        d = {"isa": self.isa, "arch": self.arch, "kernel": self.lines, "flag_deps": self.fd}
+        if getattr(self, "reanalysed_after", None) is not None:
+            d["reanalysed_after_flag_deps"] = self.reanalysed_after
+            if getattr(self, "reanalysed_sub", None):
+                d["reanalysed_sub_range"] = self.reanalysed_sub
+        return d
+
+    def reanalysed(self, flag_deps, sub=None):
+        """The SAME instruction-form objects analysed once more (a second KernelDG on the parsed kernel, as a library user or
+        the report generators do), with another flag-dependency setting: nothing of the first analysis may show."""
+        from osaca.semantics import KernelDG
+
+        other = copy.copy(self)
+        other.reanalysed_after = self.fd
+        other.fd = flag_deps
+        # the first analysis is completed first (its per-line marks are set when the results are asked for)
+        self.kdg.get_critical_path()
+        self.kdg.get_loopcarried_dependencies()
+        if sub is not None:
+            # an analysis of a sub-range of the same objects in between (what --lines / a library user selects)
+            part = KernelDG(self.kernel[sub[0]:sub[1]], self.parser, self.mm, self.sem, timeout=-1, flag_dependencies=flag_deps)
+            part.get_critical_path()
+            part.get_loopcarried_dependencies()
+            other.reanalysed_sub = list(sub)
+        other.kdg = KernelDG(self.kernel, self.parser, self.mm, self.sem, timeout=-1, flag_dependencies=flag_deps)
+        return other
 
     def head(self, op):
         return "%s %s %s %s %s" % (op, esc("x86" if self.isa == "x86" else "a64"), esc("1" if self.fd else "0"), esc(self.stlf), esc(self.pidx))
